@@ -11,7 +11,7 @@ use sciparse::{
     },
     identifier::{asn::Asn, isd::Isd, isd_asn::IsdAsn},
     path::ScionPath,
-    segment::{AsEntry, HopEntry, PeerEntry, SegmentHopField, UnsignedPathSegment},
+    segment::{AsEntry, Entry, HopEntry, PathSegment, PeerEntry, SegmentHopField, UnsignedPathSegment},
 };
 use serde_json::Value;
 
@@ -48,7 +48,10 @@ pub fn build_segment(seg: &Value) -> UnsignedPathSegment {
                     .map(|p| PeerEntry {
                         peer: ia(p["pas"].as_u64().unwrap()),
                         peer_interface: p["pif"].as_u64().unwrap() as u16,
-                        peer_mtu: 1400,
+                        // every peering link has its own MTU (below the AS MTUs), a peer entry without
+                        // remote interface a larger one: a path that takes its MTU from the wrong peer
+                        // entry becomes visible
+                        peer_mtu: (1000 + p["lif"].as_u64().unwrap() % 300 + if p["pif"].as_u64().unwrap() == 0 { 200 } else { 0 }) as u16,
                         hop_field: SegmentHopField {
                             expiration_units: 63,
                             cons_ingress: p["lif"].as_u64().unwrap() as u16,
@@ -209,3 +212,43 @@ pub fn self_consistent(p: &ScionPath) -> Vec<String> {
     bad
 }
 
+
+/// A returned path must be backed by the input: every link it claims to cross is announced by some
+/// segment (two consecutive AS entries, or a peer entry naming both interfaces), and its MTU does not
+/// exceed the MTU announced for a peering link it crosses.  Returns canonical short names of what is wrong.
+pub fn backed_by_input<E: Entry>(p: &ScionPath, segs: &[&PathSegment<E>]) -> Vec<String> {
+    let mut bad = vec![];
+    let (Some(meta), ifs) = (p.metadata(), ifaces_of(p)) else { return bad };
+    for pair in ifs.chunks(2) {
+        let [x, y] = pair else { continue };
+        let mut consecutive = false;
+        let mut peer_mtus: Vec<u16> = vec![];
+        for s in segs {
+            let es: Vec<&AsEntry> = s.iter().collect();
+            for (i, a) in es.iter().enumerate() {
+                let al = as_of(a.local);
+                if i + 1 < es.len() {
+                    let b = es[i + 1];
+                    let (eg, inn, bl) = (a.hop_entry.hop_field.cons_egress, b.hop_entry.hop_field.cons_ingress, as_of(b.local));
+                    if (al, eg, bl, inn) == (x.0, x.1, y.0, y.1) || (al, eg, bl, inn) == (y.0, y.1, x.0, x.1) {
+                        consecutive = true;
+                    }
+                }
+                for q in &a.peer_entries {
+                    let (lif, pas, pif) = (q.hop_field.cons_ingress, as_of(q.peer), q.peer_interface);
+                    if (al, lif, pas, pif) == (x.0, x.1, y.0, y.1) || (al, lif, pas, pif) == (y.0, y.1, x.0, x.1) {
+                        peer_mtus.push(q.peer_mtu);
+                    }
+                }
+            }
+        }
+        if !consecutive && peer_mtus.is_empty() {
+            bad.push("unannounced-link".to_string());
+        } else if !consecutive && meta.mtu > *peer_mtus.iter().max().unwrap() {
+            bad.push("mtu-above-peering-link".to_string());
+        }
+    }
+    bad.sort();
+    bad.dedup();
+    bad
+}
